@@ -2,15 +2,19 @@
 use std::collections::{HashMap, HashSet, VecDeque};
 use std::sync::Arc;
 use std::time::{Duration, Instant};
+use std::borrow::Cow;
 //@@ include prelude/hash_keys.rs
 //@@ include prelude/time.rs
 //@@ include prelude/slice.rs
 //@@ include prelude/cmp.rs
 //@@ include prelude/strnum.rs
+//@@ include prelude/lossy.rs
+//@@ include prelude/lossy_parse.rs
+//@@ include prelude/arc.rs
 //@@ include prelude/vecdeque.rs
 //@@ include prelude/skiplist_stub.rs
 verus! {
-broadcast use {group_byte_keys, group_time, group_slice, group_strnum, group_vecdeque, vstd::std_specs::hash::group_hash_axioms};
+broadcast use {group_byte_keys, group_time, group_slice, group_strnum, group_lossy_parse, group_vecdeque, vstd::std_specs::hash::group_hash_axioms};
 //@@ item src/error.rs FerrousError
 //@@ item src/error.rs CommandError
 //@@ item src/error.rs StorageError
